@@ -23,8 +23,8 @@ EVS = ["alpha", "beta", "gamma", "delta"]
 def base_scenario(rng):
     coro = rng.choice([0.0, 0.0, 0.0, 0.6, 1.0])
     scn = gen.rand_engine_scenario(
-        rng, nested=0.8, fail=0.0, dense=rng.choice([0.5, 0.9]), guards=rng.random() < 0.3,
-        validators=True, validator_p=0.2, coro=coro, yields=0, nsends=rng.randint(3, 6), unknown=(),
+        rng, nested=0.8, fail=0.0, dense=rng.choice([0.5, 0.9]), guards=rng.random() < 0.6,
+        validators=True, validator_p=0.2, coro=coro, yields=0, nsends=rng.randint(3, 6), unknown=(), evcb_p=rng.choice([0.0, 0.2]),
         events=EVS, provs=rng.choice([["sm"], ["sm", "model"], ["sm", "model", "l1"]]))
     d = scn["classes"][0]
     for cb in d["cbs"]:
@@ -64,8 +64,7 @@ def run(pid, tier, seed, replay):
     fam = [gen.family_member(rng, nstates=3, dense=0.7, guards=False, validators=True, nested=True, max_cbs=4)
            for _ in range(3 if quick else 12)]
     consts = {"NI": 1, "MaxCalls": 2, "MaxFails": 1 if quick else 2, "MaxActs": 0}
-    ec.mc_run(chk, fam, consts, required=("MCFail", "MCUnwind", "MCNested", "MCLoopPop"), label="failure family")
-    hs = ec.hist_scenarios(chk, fam, consts, limit=1500 if quick else 20000)
+    _cov, hs = ec.mc_run(chk, fam, consts, required=("MCFail", "MCUnwind", "MCNested", "MCLoopPop"), label="failure family", hist_limit=1500 if quick else 20000)
     ec.run_validate(chk, hs, "failure: spec-behaviour replay", shards=4 if quick else 12)
     scns, total_points, bases = [], 0, 0
     target = 2000 if quick else 40000
